@@ -67,7 +67,8 @@ def run(tier, seed, model_ok=True):
     res.rule = ("[a quarter of the generated scenarios also run barriers of a SECOND ygm::comm living in the same process between the epochs; its events are removed from the judged history] " +
                 "seeded scenarios (handler-side sends, handler-side local_progress, local_wait_until on flags set by peers, callbacks, masks) x layout x routing x "
                 "capacity {0,1KB,16MB} x irecvs x isends_wait x issend x eager/rendezvous x policy; plus a directed family entering a blocking collective after "
-                "un-barriered traffic; distinct = (config, scenario shape) of completed runs")
+                "un-barriered traffic; container construction / destruction scenarios of harness/dtor.cpp (shared with C02) incl. heap-allocated containers "
+                "re-created with a rank-dependent allocator history; distinct = (config, scenario shape) of completed runs")
     res.assumptions = ["MPI progress semantics as implemented by simmpi", "schedules sampled by seeded policies", "finite message DAGs"]
     binary, err = C.build_harness("traffic")
     if binary is None:
@@ -75,6 +76,10 @@ def run(tier, seed, model_ok=True):
         return res
     K.run_cases(res, binary, cases(tier, seed), WANT, extra=extra if model_ok else None)
     K.run_cases(res, binary, collective_cases(tier, seed), WANT, timeout=60)
+    # construction / destruction of containers (their constructors run a blocking ygm_ptr check, their destructors a barrier),
+    # incl. heap-allocated containers re-created with a rank-dependent allocator history: every call must return, no assertion
+    from props import c02
+    c02.dtor_runs(res, "quick", seed)
     unknown = [i for i, f in enumerate(res.oracle_failures) if not f["signature"].startswith("deadlock coll(")]
     if unknown:
         i = unknown[0]
@@ -83,5 +88,8 @@ def run(tier, seed, model_ok=True):
 
 
 def replay(data):
+    if (data.get("case") or {}).get("harness") == "dtor":
+        from props import c02
+        return c02.replay(data)
     binary, err = C.build_harness("traffic")
     return K.replay_case(binary, data, WANT, extra)
